@@ -33,10 +33,11 @@ structure Cfg where
   cursorReset : Bool   -- 08: `!n`/`!!` move the cursor to the end of the line they swap in
   rerunGuard  : Bool   -- 09: a history line that itself is a history command is refused
   cancelEnd   : Bool   -- 10: `~Telnetd::Impl` / `~TcpRpc::Impl` cancel the disconnect tasks that are still queued
+  delDefer    : Bool   -- 11: `deleteSession()` of the session whose input is being processed waits until it has been processed
 deriving DecidableEq, Repr
 
-def Cfg.fixed : Cfg := ⟨true, true, true, true, true, true, true, true, true, true⟩
-def Cfg.legacy : Cfg := ⟨false, false, false, false, false, false, false, false, false, false⟩
+def Cfg.fixed : Cfg := ⟨true, true, true, true, true, true, true, true, true, true, true⟩
+def Cfg.legacy : Cfg := ⟨false, false, false, false, false, false, false, false, false, false, false⟩
 
 /-! ## strings -/
 
@@ -195,6 +196,8 @@ inductive Ev
   | tx (k : TxKind) (bs : Str)            -- bytes sent to the client
   | probe (id : Nat) (args : List Str)    -- a command node was called with these arguments
   | endSess                               -- Connection::endSession
+  | delS                                  -- a command handler had `Terminal::deleteSession` called on the session it runs in
+  | sysc (k : Nat) (tok : String)         -- a system call on the server-side descriptor of client k (M line)
   | closed                                -- TcpServer::disconnect of the session's client
   | slot (k : Nat)                        -- what follows concerns session slot k (8 = the op itself)
   | split (r : Option (List Str))         -- result of a direct SplitCmdline call
@@ -219,6 +222,8 @@ scripted function nodes): send text, feed bytes into the same session through `o
 (re-entrant use: the outer Enter is still being executed), end the session -/
 inductive Act
   | send (bs : Str) | feed (bs : Str) | endS
+  | del       -- `Terminal::deleteSession` of the very session the handler runs in (a handler that holds the Terminal
+              -- and the token; `Stdio::stop()` called from a command of the stdio shell)
 deriving DecidableEq, Repr
 
 inductive Node
@@ -460,6 +465,11 @@ def runScript (feed : Feed) : St → List Act → St × List Ev
   | s, .endS :: r =>
     let y := runScript feed s r
     (y.1, .endSess :: y.2)
+  | s, .del :: r =>
+    -- (patch 11) the session stays as it is until its input has been processed: the rest of the script, the rest of
+    -- the command line and of the segment run on a live session; `finishSlot` carries the deletion out
+    let y := runScript feed s r
+    (y.1, .delS :: y.2)
 
 /-- the harness's handler: the script runs only while the nesting budget lasts -/
 def runHandler (feed : Feed) (s : St) (script : List Act) : St × List Ev :=
@@ -724,6 +734,8 @@ structure Slot where
   sess : Option St := none  -- the live SessionContext, if any
   pending : Str := []       -- telnet: received but not yet consumed bytes
   ending : Bool := false    -- telnet / raw TCP: a handler called endSession(): the disconnect task is queued
+  kq : Str := []            -- telnet / raw TCP: bytes the client wrote that the service has not read yet (the kernel's queue)
+  zfd : Nat := 0            -- telnet / raw TCP: descriptors of finished connections whose deferred `close` has not run yet
 deriving DecidableEq, Repr
 
 inductive Kind | direct | tel | rpc | stdio
@@ -757,6 +769,13 @@ inductive Op
   | front (isTel : Bool) (f : FrontOp)
   | wfault (k m : Nat)        -- the kernel's answers to write() on the client's socket: 0 all, 1 short counts, 2 EAGAIN every other call, 3 EPIPE
   | xclose (k : Nat)          -- the client closes its end without a word
+  | xsock (k : Nat) (bs : Str) (chunks : List Nat) (term : Nat)
+      -- the client writes `bs`; then ONE read event on the service's socket, the kernel answering the `readv` calls of
+      -- `BufferedFd::onReadCallback` as scripted: `chunks` (sizes of the successful calls), then `term`: 0 ask the real
+      -- kernel, 1 EAGAIN, 2 end of file, 3 ECONNRESET, 4 EINTR, 5 EIO
+  | xconnf (k : Nat) (e : Nat)   -- a client connects but `accept` fails: 1 EAGAIN, 2 EMFILE, 3 ECONNABORTED, 4 EINTR (the connection is gone)
+  | ssplit (sep bs : Str)     -- util::string::Split called directly
+  | hexstr (bs : Str) (n : Nat) (upper : Bool) (delim : Str)    -- util::string::RawDataToHexStr(p, n, upper, delim) called directly
 deriving DecidableEq, Repr
 
 def maxNodes : Nat := 16
@@ -768,8 +787,8 @@ def Slot.has (x : Slot) (g : Nat) : Bool := x.gen = g && x.sess.isSome
 def exitSlot (k : Nat) (x : Slot) : Slot × List Ev :=
   match kindOf k with
   | .direct => ({ x with sess := none }, [.slot k, .endSess])
-  | .tel => ({ x with sess := none, fstate := 2, pending := [], ending := false }, [.slot k, .closed])
-  | .rpc => ({ x with sess := none, fstate := 2, pending := [], ending := false }, [.slot k, .closed])
+  | .tel => ({ x with sess := none, fstate := 2, pending := [], ending := false, kq := [] }, [.slot k, .closed, .sysc k "close"])
+  | .rpc => ({ x with sess := none, fstate := 2, pending := [], ending := false, kq := [] }, [.slot k, .closed, .sysc k "close"])
   | .stdio => ({ x with sess := none, fstate := 2 }, [])
 
 /-- the queued exit tasks run, in order (one drained loop pass) -/
@@ -821,33 +840,70 @@ def closeEnding : List Nat → List Slot → List Slot × List Ev
     let x := sl.getD k {}
     if x.ending then
       if x.fstate = 1 then
-        let r := closeEnding ks (sl.set k { x with ending := false, fstate := 2, sess := none, pending := [] })
-        (r.1, .slot k :: .closed :: r.2)
+        let r := closeEnding ks (sl.set k { x with ending := false, fstate := 2, sess := none, pending := [], kq := [] })
+        (r.1, .slot k :: .closed :: .sysc k "close" :: r.2)
       else closeEnding ks (sl.set k { x with ending := false })
     else closeEnding ks sl
 
+/-- the deferred deletions of finished connections run: their descriptors are closed -/
+def closeZombies : List Nat → List Slot → List Slot × List Ev
+  | [], sl => (sl, [])
+  | k :: ks, sl =>
+    let x := sl.getD k {}
+    let r := closeZombies ks (if x.zfd = 0 then sl else sl.set k { x with zfd := 0 })
+    (r.1, List.replicate x.zfd (.sysc k "close") ++ r.2)
+
 /-- a drained loop pass: all queued tasks run -/
 def doPass (cfg : Cfg) (w : World) : World × List Ev :=
-  let r := runExits cfg w.exits w.slots
+  let z := closeZombies [4, 5, 6] w.slots
+  let r := runExits cfg w.exits z.1
   let c := closeEnding [4, 5, 6] r.1
-  ({ w with slots := c.1, exits := [], frontEnd := false }, r.2 ++ c.2)
+  ({ w with slots := c.1, exits := [], frontEnd := false }, z.2 ++ r.2 ++ c.2)
 
 def isEndSess (e : Ev) : Bool := e = .endSess
 
 /-- the session of slot `k` has processed a delivery: store its state, queue the exit tasks it
 scheduled, and carry out what a handler's `endSession()` means for this kind of connection -/
-def finishSlot (w : World) (k : Nat) (x : Slot) (s' : Option St) (evs : List Ev) : World × List Ev :=
+def isDelS (e : Ev) : Bool := e = .delS
+
+def isSysc : Ev → Bool
+  | .sysc _ _ => true
+  | _ => false
+
+def isTx : Ev → Bool
+  | .tx _ _ => true
+  | _ => false
+
+/-- what a handler's `deleteSession()` of its own session comes to once the delivery has been processed: with patch 11
+the session is deleted now (it was kept until here); in the code as found it was freed on the spot and the rest of the
+delivery ran on the freed, pooled `SessionContext` -/
+def delOutcome (cfg : Cfg) (deleted : Bool) : List Ev :=
+  if deleted && !cfg.delDefer then [.bad .useAfterFree] else []
+
+/-- the stdio shell: `Stdio::stop()` disables the stream, what is sent afterwards is queued and never written -/
+def dropTxAfterDel : List Ev → List Ev
+  | [] => []
+  | .delS :: r => .delS :: r.filter (fun e => !isTx e)
+  | e :: r => e :: dropTxAfterDel r
+
+def finishSlot (cfg : Cfg) (w : World) (k : Nat) (x : Slot) (s' : Option St) (evs : List Ev) : World × List Ev :=
   let ended := evs.any isEndSess
+  let deleted := evs.any isDelS
+  let s'' := if deleted then none else s'
   let exits' := w.exits ++ List.replicate (countSched evs) (k, x.gen)
+  let out := evs.filter (fun e => !isDelS e) ++ delOutcome cfg deleted
   match kindOf k with
   | .direct =>      -- the recording connection just notes the call
-    ({ w.setSlot k { x with sess := s' } with exits := exits' }, .slot k :: evs)
-  | .stdio =>       -- Stdio::endSession resets its token at once; the next input starts a new session
-    ({ w.setSlot k (if ended then { x with sess := none, fstate := 2 } else { x with sess := s' }) with exits := exits' },
-     .slot k :: evs.filter (fun e => !isEndSess e))
-  | _ =>            -- Telnetd / TcpRpc: the disconnect is a task for the next loop pass
-    ({ w.setSlot k { x with sess := s', ending := x.ending || ended } with exits := exits', frontEnd := w.frontEnd || ended },
-     .slot k :: evs.filter (fun e => !isEndSess e))
+    ({ w.setSlot k { x with sess := s'' } with exits := exits' }, .slot k :: out)
+  | .stdio =>       -- Stdio::endSession resets its token at once; the next input starts a new session;
+                    -- a handler's delete is `Stdio::stop()`: the service is stopped
+    ({ w.setSlot k (if deleted then { x with sess := none, fstate := 3 }
+                    else if ended then { x with sess := none, fstate := 2 } else { x with sess := s'' }) with exits := exits' },
+     .slot k :: ((dropTxAfterDel evs).filter (fun e => !isDelS e) ++ delOutcome cfg deleted).filter (fun e => !isEndSess e))
+  | _ =>            -- Telnetd / TcpRpc: the disconnect is a task for the next loop pass; after a delete the client stays
+                    -- connected to a service whose terminal session is gone (its input is dropped)
+    ({ w.setSlot k { x with sess := s'', ending := x.ending || ended } with exits := exits', frontEnd := w.frontEnd || ended },
+     .slot k :: out.filter (fun e => !isEndSess e))
 
 /-- bytes for the session of slot `k` (already framed) -/
 def deliver (cfg : Cfg) (w : World) (k : Nat) (bs : Str) : World × List Ev :=
@@ -856,24 +912,124 @@ def deliver (cfg : Cfg) (w : World) (k : Nat) (bs : Str) : World × List Ev :=
   | none => (w, [])
   | some s =>
     let r := recvStringD cfg w.nodes w.depth s bs
-    finishSlot w k x (some r.1) r.2
-
-def isTx : Ev → Bool
-  | .tx _ _ => true
-  | _ => false
+    finishSlot cfg w k x (some r.1) r.2
 
 /-- what the client of slot `k` gets to see of these events: nothing that was sent while its socket refuses
 every write (`BufferedFd::send` logs the error and drops the data) or after it closed its end -/
 def heard (w : World) (k : Nat) (evs : List Ev) : List Ev :=
   if w.mute.contains k || w.gone.contains k then evs.filter (fun e => !isTx e) else evs
 
-/-- the read events of a loop pass find end-of-file on the sockets whose client went away:
-`TcpConnection::onSocketClosed` → `onTcpDisconnected` → `deleteSession` -/
-def dropGone : List Nat → World → World
-  | [], w => w
+/-- bytes for a telnet / raw-TCP client's connection, as `onTcpReceived` gets them (the framing of the front end, then the
+terminal session) -/
+def recvSlot (cfg : Cfg) (w : World) (k : Nat) (bs : Str) : World × List Ev :=
+  let x := w.slot k
+  if k = 6 then
+    let buf := x.pending ++ bs
+    if buf = [] then (w, opLine "rest=0")
+    else
+      let r := deliver cfg w 6 buf
+      (r.1, heard w 6 r.2 ++ opLine "rest=0")
+  else
+    let opts0 := match x.sess with | some s => s.opts | none => 0
+    let f := telFeed cfg opts0 x.pending bs
+    let a := applyTel cfg w.nodes w.depth x.sess f.1
+    let r := finishSlot cfg w k { x with pending := f.2.2 } a.1 a.2
+    (r.1, heard w k r.2 ++ opLine ("rest=" ++ toString f.2.2.length))
+
+/-! ### the socket read path (`BufferedFd::onReadCallback` on the service's end of a client's socket)
+
+`readv` is called until it answers something that is not a positive count; everything read is appended to the receive
+buffer and handed over in ONE delivery; the answer that ended the loop is looked at only when the very first call gave
+it: end of file and every error but EAGAIN close the connection (`onSocketClosed` → `onTcpDisconnected` →
+`deleteSession`), EAGAIN means "nothing there". The kernel's answers are an oracle: `chunks` are the counts of the
+scripted successful calls (each at most what is queued), `term` what it says afterwards; `term = 0` and a scripted call
+that meets an empty queue are answered by the real kernel: everything queued, then EAGAIN — or end of file when the client
+has closed its end. -/
+
+structure RdRes where
+  data : Str            -- what the one delivery of this read event holds
+  rest : Str            -- what stays queued in the kernel
+  closed : Bool         -- the event ends the connection
+  toks : List String    -- the calls made (M line)
+deriving DecidableEq, Repr
+
+def termName : Nat → String
+  | 1 => "EAGAIN" | 2 => "EOF" | 3 => "ECONNRESET" | 4 => "EINTR" | _ => "EIO"
+
+/-- the scripted successful calls: (data, rest of the queue, tokens, "a scripted call met an empty queue") -/
+def rdChunks : Str → List Nat → Str × Str × List String × Bool
+  | kq, [] => ([], kq, [], false)
+  | [], _ :: _ => ([], [], [], true)
+  | kq, c :: cs =>
+    let r := rdChunks (kq.drop c) cs
+    (kq.take c ++ r.1, r.2.1, ("readv=" ++ toString (kq.take c).length) :: r.2.2.1, r.2.2.2)
+
+def sockRead (kq : Str) (gone : Bool) (chunks : List Nat) (term : Nat) : RdRes :=
+  let c := rdChunks kq chunks
+  if c.2.2.2 || term = 0 then
+    -- the real kernel goes on: the rest of the queue, then EAGAIN / end of file
+    let data := c.1 ++ c.2.1
+    { data := data, rest := [], closed := data.isEmpty && gone,
+      toks := c.2.2.1 ++ (if c.2.1.isEmpty then [] else ["readv=+" ++ toString c.2.1.length]) ++ [if gone then "readv=EOF" else "readv=EAGAIN"] }
+  else
+    { data := c.1, rest := c.2.1, closed := c.1.isEmpty && term ≠ 1, toks := c.2.2.1 ++ ["readv=" ++ termName term] }
+
+/-- the connection of slot `k` is over for the service (end of file / read error found by its read event): the session is
+deleted; the descriptor is closed by a deferred task -/
+def sockClosed (w : World) (k : Nat) : World :=
+  let x := w.slot k
+  { w.setSlot k { x with fstate := 2, sess := none, pending := [], ending := false, kq := [], zfd := x.zfd + 1 } with
+    mute := w.mute.filter (· ≠ k), gone := w.gone.filter (· ≠ k) }
+
+/-- one read event on the socket of slot `k` -/
+def sockEvent (cfg : Cfg) (w : World) (k : Nat) (chunks : List Nat) (term : Nat) : World × List Ev :=
+  let x := w.slot k
+  let r := sockRead x.kq (w.gone.contains k) chunks term
+  let w1 := w.setSlot k { x with kq := r.rest }
+  let d : World × List Ev := if r.data = [] then (w1, []) else recvSlot cfg w1 k r.data
+  let toks : List Ev := r.toks.map (.sysc k)
+  if r.closed then (sockClosed d.1 k, d.2 ++ toks) else (d.1, d.2 ++ toks)
+
+/-- the read events of a loop pass: the sockets with queued bytes or whose client went away -/
+def sockPass (cfg : Cfg) : List Nat → World → World × List Ev
+  | [], w => (w, [])
   | k :: ks, w =>
     let x := w.slot k
-    dropGone ks (if x.fstate = 1 then w.setSlot k { x with fstate := 2, sess := none, pending := [], ending := false } else w)
+    if x.fstate = 1 ∧ (x.kq ≠ [] ∨ w.gone.contains k) then
+      let r := sockEvent cfg w k [] 0
+      let r2 := sockPass cfg ks r.1
+      (r2.1, r.2 ++ r2.2)
+    else sockPass cfg ks w
+
+/-! ### util::string helpers called directly -/
+
+/-- `util::string::Split(src, sep)` for any non-empty separator: the chips between the non-overlapping occurrences of `sep`
+found left to right (`acc` = the current chip, reversed; `fuel` ≥ length of the rest) -/
+def splitByGo (sep : Str) : Nat → Str → Str → List Str
+  | 0, _, acc => [acc.reverse]
+  | _ + 1, [], acc => [acc.reverse]
+  | fuel + 1, c :: cs, acc =>
+    if sep.isPrefixOf (c :: cs) then acc.reverse :: splitByGo sep fuel ((c :: cs).drop sep.length) []
+    else splitByGo sep fuel cs (c :: acc)
+
+def splitBy (sep s : Str) : List Str := splitByGo sep (s.length + 1) s []
+
+def hexDigit (upper : Bool) (n : Nat) : UInt8 :=
+  if n < 10 then UInt8.ofNat (48 + n) else UInt8.ofNat ((if upper then 55 else 87) + n)
+
+def hex2 (upper : Bool) (b : UInt8) : Str := [hexDigit upper (b.toNat / 16), hexDigit upper (b.toNat % 16)]
+
+/-- `RawDataToHexStr(ptr, len, uppercase, delimiter)`: the length parameter is a `uint16_t` (a `size_t` argument is taken
+modulo 2^16 — telnetd.cpp passes the payload length of a sub-negotiation) -/
+def rawHex (data : Str) (n : Nat) (upper : Bool) (delim : Str) : Str :=
+  delim.intercalate ((data.take (n % 65536)).map (hex2 upper))
+
+/-- a client that closed its end does not see the service close its own (no `closed` observation for it) -/
+def dropClosedOf (gone : List Nat) : Nat → List Ev → List Ev
+  | _, [] => []
+  | _, .slot k :: r => .slot k :: dropClosedOf gone k r
+  | cur, .closed :: r => if gone.contains cur then dropClosedOf gone cur r else .closed :: dropClosedOf gone cur r
+  | cur, e :: r => e :: dropClosedOf gone cur r
 
 /-- one op; `none` = `bad-op` -/
 def step (cfg : Cfg) (w : World) : Op → Option (World × List Ev)
@@ -896,8 +1052,9 @@ def step (cfg : Cfg) (w : World) : Op → Option (World × List Ev)
         some (r.1, r.2 ++ retLine true)
     else none
   | .pass =>
-    let r := doPass cfg { dropGone w.gone w with gone := [] }
-    some (r.1, r.2 ++ opLine "pass")
+    let e := sockPass cfg [4, 5, 6] w
+    let r := doPass cfg e.1
+    some (r.1, e.2 ++ dropClosedOf e.1.gone nSlots r.2 ++ opLine "pass")
   | .teardown =>
     -- services, Terminal, then the Loop are destroyed without draining: the Loop's cleanup runs what is still
     -- queued — an exit task of the destroyed Terminal, a disconnect task of the destroyed Telnetd / TcpRpc
@@ -911,12 +1068,15 @@ def step (cfg : Cfg) (w : World) : Op → Option (World × List Ev)
     -- telnet / raw-TCP sessions queue in this very pass are still in the loop when their service dies:
     -- cancelled by its destructor (patch 10), else run on the destroyed object. (All clients lose their
     -- connection when the service is destroyed; the harness reports none of that.)
-    let c := closeEnding [4, 5, 6] w.slots
-    let r := runExits cfg w.exits c.1
-    let late := r.2.any (· = .closed)
-    let evs : List Ev := if late ∧ !cfg.cancelEnd then [.bad .useAfterFree] else []
-    some ({ tel := w.tel, rpc := w.rpc, depth := w.depth },
-          r.2.filter (· ≠ .closed) ++ evs ++ opLine "passdown")
+    -- (refused while bytes are queued on a client's socket: the pass would deliver them to a dying service)
+    if (w.slot 4).kq = [] ∧ (w.slot 5).kq = [] ∧ (w.slot 6).kq = [] then
+      let c := closeEnding [4, 5, 6] w.slots
+      let r := runExits cfg w.exits c.1
+      let late := r.2.any (· = .closed)
+      let evs : List Ev := if late ∧ !cfg.cancelEnd then [.bad .useAfterFree] else []
+      some ({ tel := w.tel, rpc := w.rpc, depth := w.depth },
+            (r.2.filter (· ≠ .closed)).filter (fun e => !isSysc e) ++ evs ++ opLine "passdown")
+    else none
   | .opt n =>
     let x := w.slot w.cur
     if n < 4 ∧ x.fstate ≠ 0 then
@@ -934,35 +1094,21 @@ def step (cfg : Cfg) (w : World) : Op → Option (World × List Ev)
     if 4 ≤ k ∧ k < 7 ∧ x.fstate ≠ 1 then
       let s : St := { opts := if k = 6 then 2 else 0 }
       let hello : List Ev := if k = 6 then [] else [.tx .out telnetHello]
-      some ({ w.setSlot k { fstate := 1, gen := x.gen + 1, sess := some s, pending := [] } with
+      some ({ w.setSlot k { fstate := 1, gen := x.gen + 1, sess := some s, pending := [], zfd := x.zfd } with
                mute := w.mute.filter (· ≠ k), gone := w.gone.filter (· ≠ k) },
-            .slot k :: hello ++ beginEvs s ++ opLine "conn")
+            .slot k :: hello ++ beginEvs s ++ [.sysc k "accept=ok"] ++ opLine "conn")
     else none
   | .xrecv k bs =>
     let x := w.slot k
-    if 4 ≤ k ∧ k < 7 ∧ x.fstate = 1 then
-      if k = 6 then
-        let buf := x.pending ++ bs
-        if buf = [] then some (w, opLine "rest=0")
-        else
-          let r := deliver cfg w 6 buf
-          some (r.1, heard w 6 r.2 ++ opLine "rest=0")
-      else
-        let opts0 := match x.sess with | some s => s.opts | none => 0
-        let f := telFeed cfg opts0 x.pending bs
-        let a := applyTel cfg w.nodes w.depth x.sess f.1
-        let r := finishSlot w k { x with pending := f.2.2 } a.1 a.2
-        some (r.1, heard w k r.2 ++ opLine ("rest=" ++ toString f.2.2.length))
-    else none
+    if 4 ≤ k ∧ k < 7 ∧ x.fstate = 1 then some (recvSlot cfg w k bs) else none
   | .xdisc k =>
     let x := w.slot k
     if 4 ≤ k ∧ k < 7 ∧ x.fstate = 1 then
-      some ({ w.setSlot k { x with fstate := 2, sess := none, pending := [], ending := false } with
-               mute := w.mute.filter (· ≠ k), gone := w.gone.filter (· ≠ k) }, opLine "disc")
+      some (sockClosed w k, opLine "disc")
     else none
   | .sstart =>
     let x := w.slot 7
-    if x.fstate = 0 ∧ w.gone = [] then      -- (the passes of the stdio ops would meet the closed sockets: kept apart)
+    if x.fstate = 0 ∧ w.gone = [] ∧ (w.slot 4).kq = [] ∧ (w.slot 5).kq = [] ∧ (w.slot 6).kq = [] then      -- (the passes of the stdio ops would meet the closed sockets / queued bytes: kept apart)
       let s : St := { opts := 1 }
       let w1 := w.setSlot 7 { x with fstate := 1, gen := x.gen + 1, sess := some s }
       let r := doPass cfg w1
@@ -1032,6 +1178,21 @@ def step (cfg : Cfg) (w : World) : Op → Option (World × List Ev)
     if 4 ≤ k ∧ k < 7 ∧ (w.slot k).fstate = 1 ∧ !w.gone.contains k ∧ (f7 = 0 ∨ f7 = 3) then
       some ({ w with gone := k :: w.gone }, opLine "xclose")
     else none
+  | .xsock k bs chunks term =>
+    let f7 := (w.slot 7).fstate
+    let x := w.slot k
+    if 4 ≤ k ∧ k < 7 ∧ x.fstate = 1 ∧ !w.gone.contains k ∧ (f7 = 0 ∨ f7 = 3) ∧ term ≤ 5 ∧ chunks.length ≤ 8 ∧
+        chunks.all (fun c => 1 ≤ c && c ≤ 1024) then
+      let r := sockEvent cfg (w.setSlot k { x with kq := x.kq ++ bs }) k chunks term
+      some (r.1, r.2 ++ opLine "xsock")
+    else none
+  | .xconnf k e =>
+    if 4 ≤ k ∧ k < 7 ∧ (w.slot k).fstate ≠ 1 ∧ 1 ≤ e ∧ e ≤ 4 then
+      some (w, [.slot k, .sysc k ("accept=" ++ (if e = 1 then "EAGAIN" else if e = 2 then "EMFILE" else if e = 3 then "ECONNABORTED" else "EINTR"))] ++ opLine "conn-fail")
+    else none
+  | .ssplit sep bs => if sep = [] then none else some (w, [.split (some (splitBy sep bs))])
+  | .hexstr bs n upper delim =>
+    if n % 65536 ≤ bs.length then some (w, [.split (some [rawHex bs n upper delim])]) else none
 
 /-- a whole op file (refused ops change nothing and print `bad-op`) -/
 def run (cfg : Cfg) : World → List Op → World × List Ev
